@@ -291,9 +291,9 @@ arctan = _elementwise(lambda x: S.s_fun('arctan', x), _np.arctan, 'arctan')
 abs = _elementwise(S.s_abs, _np.abs, 'abs')
 absolute = abs
 sign = _elementwise(S.s_sign, _np.sign, 'sign')
-radians = _elementwise(lambda x: x * _sp.pi / 180, _np.radians, 'radians')
+radians = _elementwise(lambda x: x * S.PI / 180, _np.radians, 'radians')
 deg2rad = radians
-degrees = _elementwise(lambda x: x * 180 / _sp.pi, _np.degrees, 'degrees')
+degrees = _elementwise(lambda x: x * 180 / S.PI, _np.degrees, 'degrees')
 rad2deg = degrees
 isnan = _elementwise(lambda x: x.kind == S.NAN, _np.isnan, 'isnan')
 isinf = _elementwise(lambda x: x.kind in (S.PINF, S.NINF), _np.isinf, 'isinf')
